@@ -27,6 +27,9 @@ class XMLDocParser:
         except FileNotFoundError:
             print(f"Warning: XML file '{xml_file}' not found.")
             return None
+        except OSError:
+            print(f"Warning: XML file '{xml_file}' could not be read.")
+            return None
         except ET.ParseError:
             print(f"Warning: Failed to parse XML file '{xml_file}'.")
             return None
@@ -57,8 +60,10 @@ class XMLDocParser:
             cpp_class, cpp_method, method_args_names, member_defs)
 
         # Extract the docs for the function that matches cpp_class.cpp_method(*method_args_names).
+        if not member_defs or documenting_index >= len(member_defs):
+            return ""
         return self.get_formatted_docstring(member_defs[documenting_index],
-                                            ignored_params) if member_defs else ""
+                                            ignored_params)
 
     def get_member_defs(self, xml_folder: str, cpp_class: str,
                         cpp_method: str):
@@ -91,6 +96,12 @@ class XMLDocParser:
         if class_index is None:
             self.print_if_verbose(
                 f"Could not extract docs for {cpp_class}.{cpp_method}; class not found in index file."
+            )
+            return ""
+
+        if "refid" not in class_index.attrib:
+            self.print_if_verbose(
+                f"Could not extract docs for {cpp_class}.{cpp_method}; class has no refid in index file."
             )
             return ""
 
@@ -131,8 +142,9 @@ class XMLDocParser:
 
         # Filter out the members which don't match the method_args_names
         for maybe_member_def in maybe_member_defs:
+            argsstring = maybe_member_def.find('argsstring')
             self.print_if_verbose(
-                f"Investigating member_def with argstring {maybe_member_def.find('argsstring').text}"
+                f"Investigating member_def with argstring {argsstring.text if argsstring is not None else ''}"
             )
             # Find the number of required parameters and the number of total parameters from the
             # Doxygen XML for this member_def
@@ -186,7 +198,9 @@ class XMLDocParser:
 
             # Remember which parameters to ignore, if any
             for i in range(len(method_args_names), num_tot_params):
-                ignored_params.append(params[i].find("declname").text)
+                declname = params[i].find("declname")
+                if declname is not None:
+                    ignored_params.append(declname.text)
 
         return member_defs, ignored_params
 
@@ -264,18 +278,21 @@ class XMLDocParser:
             if parameter_list is not None:
                 for i, parameter_item in enumerate(
                         parameter_list.findall(".//parameteritem")):
-                    name = parameter_item.find(".//parametername").text
-                    desc = parameter_item.find(
-                        ".//parameterdescription/para").text
+                    name_element = parameter_item.find(".//parametername")
+                    desc_element = parameter_item.find(
+                        ".//parameterdescription/para")
+                    name = name_element.text if name_element is not None else None
+                    desc = desc_element.text if desc_element is not None else None
                     if name not in ignored_params:
                         docstring += f"{name.strip() if name else f'[Parameter {i}]'}: {desc.strip() if desc else 'No description provided'}\n"
 
             # Add return value docs
             return_sect = detailed_description.find(".//simplesect")
-            if return_sect is not None and return_sect.attrib[
-                    "kind"] == "return" and return_sect.find(
-                        "para").text is not None:
-                docstring += f"Returns: {return_sect.find('para').text.strip()}"
+            return_para = return_sect.find(
+                "para") if return_sect is not None else None
+            if return_para is not None and return_sect.attrib.get(
+                    "kind") == "return" and return_para.text is not None:
+                docstring += f"Returns: {return_para.text.strip()}"
 
         return docstring.strip()
 
